@@ -212,6 +212,19 @@ def cases(ctx, budget):
             except Alarm: res[name] = ("timeout", None)
             except Exception as ex: res[name] = (type(ex).__name__, None)
             finally: signal.alarm(0)
+        # an existence test whose query has a descendant segment and an early match, the deep or cyclic part behind it: the test must not stop at
+        # the first node ("one is enough") - the traversal has to be carried through, and raise where '$..*' on the same value raises
+        wrapped = {"k0": 1, "z": data}
+
+        def cls_of(f):
+            signal.alarm(20)
+            try: f(); return "ok"
+            except Alarm: return "timeout"
+            except Exception as ex: return type(ex).__name__
+            finally: signal.alarm(0)
+        want_w = cls_of(lambda: env_for(limit, False).find("$..*", wrapped))
+        for name, doc, text in (("exists-root", wrapped, "$[?$..k0]"), ("exists-relative", [wrapped], "$[?@..k0]"), ("exists-negated", [wrapped], "$[?!@..k0]")):
+            res[name] = (cls_of(lambda: env_for(limit, nd).find(text, doc)), None, want_w)
         return res
 
     def mk(cells, limit, kind, nontriv, nd_cap):
@@ -221,9 +234,11 @@ def cases(ctx, budget):
         if len(cells) < 400:
             want_cls = "ok" if out[0] == 0 else ("JSONPathRecursionError" if out[:2] == [1, 6] else "other")
             for nd in (False, True):
-                for name, (cls, locs) in below_root(cells, limit, nd).items():
+                for name, r3 in below_root(cells, limit, nd).items():
+                    cls, locs = r3[0], r3[1]
+                    want_here = r3[2] if len(r3) > 2 else want_cls
                     prob = None
-                    if cls != want_cls: prob = "%s (%s mode): %s, but '$..*' on the same value: %s" % (name, "nondeterministic" if nd else "deterministic", cls, want_cls)
+                    if cls != want_here: prob = "%s (%s mode): %s, but '$..*' on the same %svalue: %s" % (name, "nondeterministic" if nd else "deterministic", cls, "wrapped " if len(r3) > 2 else "", want_here)
                     elif locs is not None and out[0] == 0:
                         root_run = [tuple(n_.location) for n_ in env_for(limit, False).find("$..*", build(cells))]
                         if locs != root_run: prob = "%s: nodes differ from '$..*' applied at the root" % name
